@@ -476,11 +476,14 @@ def _mk_damp(w, vector):
         dx = ctx["dx"]
         if not vector:
             kw = dict(field=A.inout(shape))
-            return Case(K, kw, dict(field="inout"), lambda i: {"field": (ops.boundary_damp(i["field"], w, dx), m_zone(shape, w))}, smooth=("field",))
+            # the outermost ring is multiplied by sin(0): the closed form is 0 there, the floor is eps * |field|
+            return Case(K, kw, dict(field="inout"), lambda i: {"field": (ops.boundary_damp(i["field"], w, dx), m_zone(shape, w))}, smooth=("field",),
+                        scale=float(np.max(np.abs(kw["field"]))))
         s = (3,) + shape
         kw = dict(vector_field=A.inout(s))
         return Case(K, kw, dict(vector_field="inout"),
-                    lambda i: {"vector_field": (np.stack([ops.boundary_damp(i["vector_field"][c], w, dx) for c in range(3)]), m_zone(s, w, 1))}, smooth=("vector_field",))
+                    lambda i: {"vector_field": (np.stack([ops.boundary_damp(i["vector_field"][c], w, dx) for c in range(3)]), m_zone(s, w, 1))}, smooth=("vector_field",),
+                    scale=float(np.max(np.abs(kw["vector_field"]))))
     return make
 
 
